@@ -11,6 +11,8 @@
  *                           fails, f=2: the allocation inside uv_fs_stat fails
  *   T<h>  C<h>              uv_fs_poll_stop, uv_close
  *   O                       observe (active, closing, getpath)
+ *   W                       uv_walk: note every handle visited, then uv_close each visited handle that is not
+ *                           closing (prints v<fs_poll handles>;<script timers>[;?<n handles nobody created>])
  *   K                       take the oracle stat of every path, release the pool, wait until
  *                           every queued stat has run, block the pool again
  *   A<d>                    the clock advances by d ms
@@ -256,7 +258,9 @@ static void cb3(uv_fs_poll_t* h, int st, const uv_stat_t* a, const uv_stat_t* b)
 static uv_fs_poll_cb cbs[] = { cb1, cb1, cb2, cb3 };
 static void close_cb(uv_handle_t* h) { H[idx(h)]->closed = 1; printf("x%d ", idx(h)); run_beh(); }
 /* the script's own timers */
-static uv_timer_t* UT[256]; static int nut;
+static uv_timer_t* UT[256]; static int nut; static int utclosing[256];
+static uv_handle_t* seen[512]; static int nseen;
+static void walk_cb(uv_handle_t* h, void* arg) { (void) arg; if (nseen < 512) seen[nseen++] = h; }
 static void user_timer_cb(uv_timer_t* t) { printf("u%d ", (int) (intptr_t) t->data); run_beh(); }
 static void user_close_cb(uv_handle_t* h) { (void) h; }
 
@@ -321,6 +325,36 @@ static void do_ops(char* ops, int in_cb) {
       }
       printf(" ");
       break; }
+    case 'W': {
+      int j, k, unknown = 0, first;
+      nseen = 0; uv_walk(&loop, walk_cb, NULL);
+      printf("v"); first = 1;
+      for (j = 0; j < nh; j++)
+        for (k = 0; k < nseen; k++) if (seen[k] == (uv_handle_t*) &H[j]->h) { printf("%s%d", first ? "" : ",", j); first = 0; }
+      printf(";"); first = 1;
+      for (j = 0; j < nut; j++)
+        for (k = 0; k < nseen; k++) if (seen[k] == (uv_handle_t*) UT[j]) { printf("%s%d", first ? "" : ",", (int) (intptr_t) UT[j]->data); first = 0; }
+      for (k = 0; k < nseen; k++) {
+        int mine = 0;
+        for (j = 0; j < nh; j++) if (seen[k] == (uv_handle_t*) &H[j]->h) mine = 1;
+        for (j = 0; j < nut; j++) if (seen[k] == (uv_handle_t*) UT[j]) mine = 1;
+        if (!mine) unknown++;
+      }
+      if (unknown) printf(";?%d", unknown);
+      printf(" ");
+      for (j = 0; j < nh; j++)
+        for (k = 0; k < nseen; k++)
+          if (seen[k] == (uv_handle_t*) &H[j]->h && !H[j]->closing) { H[j]->closing = 1; uv_close((uv_handle_t*) &H[j]->h, close_cb); }
+      for (j = 0; j < nut; j++)
+        for (k = 0; k < nseen; k++)
+          if (seen[k] == (uv_handle_t*) UT[j] && !utclosing[j]) { utclosing[j] = 1; uv_close((uv_handle_t*) UT[j], user_close_cb); }
+      for (k = 0; k < nseen; k++) {          /* a handle nobody created: the teardown closes it like any other */
+        int mine = 0;
+        for (j = 0; j < nh; j++) if (seen[k] == (uv_handle_t*) &H[j]->h) mine = 1;
+        for (j = 0; j < nut; j++) if (seen[k] == (uv_handle_t*) UT[j]) mine = 1;
+        if (!mine && !uv_is_closing(seen[k])) uv_close(seen[k], user_close_cb);
+      }
+      break; }
     case 'F': file_op(tok); break;
     case 'K':
       if (in_cb) break;
@@ -343,7 +377,7 @@ static void do_ops(char* ops, int in_cb) {
       {
         int r, n = 0; long base_other;
         oracle_all();
-        { int j; for (j = 0; j < nut; j++) uv_close((uv_handle_t*) UT[j], user_close_cb); }
+        { int j; for (j = 0; j < nut; j++) if (!utclosing[j]) { utclosing[j] = 1; uv_close((uv_handle_t*) UT[j], user_close_cb); } }
         uv_sem_post(&cur_blk->sem); cur_blk = NULL;
         do { pool_sync(); print_statlog(); printf("g "); r = uv_run(&loop, UV_RUN_NOWAIT); } while (r != 0 && ++n < 64);
         r = uv_loop_close(&loop);
